@@ -10,7 +10,7 @@ use tls_parser::*;
 pub const RULE: &str = "complete sweep of 25 states x 2 directions x {18 handshake kinds (ClientHello split by session-id presence), ChangeCipherSpec, all 65536 (level,description) alerts, application data, heartbeat}; plus 64 random payloads per non-alert kind and cell, the documented flows as explicit sequences, BFS reachability from None and random walks in lock-step with the reference relation. distinct_nontrivial counts distinct (family, state, direction, kind class, outcome) tuples observed";
 pub const ASSUMPTIONS: &[&str] = &[
     "reference relation is DESIGN.md appendix A.1, written from the property text; cells the text leaves open (server-side CCS after ClientKeyExchange, CCS direction on resumption, HelloRequest from the client) carry an allowed set",
-    "ClientHello values with session_id = Some(empty slice) are not generated (the parser never produces them)",
+    "ClientHello with session_id = Some(empty slice) counts as 'session id present' (Option presence), although the parser never produces it",
 ];
 
 pub const STATES: [TlsState; 25] = [
@@ -216,7 +216,8 @@ pub fn make<'a>(k: K, sc: &'a Scratch, rng: &mut Rng, alert: (u8, u8)) -> TlsMes
         K::HelloRequest => hs(H::HelloRequest),
         K::ClientHelloNoSid | K::ClientHelloSid => {
             let sid = if k == K::ClientHelloSid {
-                let l = rng.usize(1, 32);
+                // presence is what matters: a present session id of any length 0..32, any content
+                let l = if rng.chance(1, 6) { 0 } else { rng.usize(1, 32) };
                 Some(&sc.b[..l])
             } else {
                 None
